@@ -110,7 +110,7 @@ func execC07(s *dScenario, c *ev.Ctx) {
 
 var propC07 = ev.Prop[dScenario]{
 	ID: "C07", Test: "TestC07",
-	Rule: "rapid draws a disruption world (2-7 nodes over 1-2 pools with pods, PDBs, daemonsets) in which every blocker is drawn independently per node / pod (unmanaged, not initialized, NodeClaim deleting, marked for deletion, nominated, node do-not-disrupt annotation, pod do-not-disrupt as true / duration vs pod start / invalid / on finished or terminating pods, PDB with 0 allowed, two PDBs, AlwaysAllow + unready pod, mirror / daemon pods, pods tolerating the disruption taint) together with the eligibility knobs (Drifted, lastPodEventTime vs consolidateAfter incl. Never, WhenEmpty / WhenEmptyOrUnderutilized / Balanced, static pool, terminationGracePeriod, capacity-buffer placements) and a history of 1-6 steps (disruption reconcile with an optional third-party mutation while the controller waits to validate, clock advance, queue reconcile, replacement initialisation / loss, node termination, provisioning pass, mutation); the REAL disruption controller with its five default methods, the REAL queue, the REAL nodeclaim.disruption controller (Consolidatable) and lifecycle controller run; " +
+	Rule: "rapid draws a disruption world (2-7 nodes over 1-2 pools with pods, PDBs, daemonsets) in which every blocker is drawn independently per node / pod (unmanaged, not initialized, NodeClaim deleting, marked for deletion, nominated, node do-not-disrupt annotation, pod do-not-disrupt as true / duration vs pod start / invalid / on finished or terminating pods, PDB with 0 allowed, two PDBs, AlwaysAllow + unready pod, mirror / daemon pods, pods tolerating the disruption taint) together with the eligibility knobs (Drifted, lastPodEventTime vs consolidateAfter incl. Never, WhenEmpty / WhenEmptyOrUnderutilized / Balanced, static pool, terminationGracePeriod, capacity-buffer placements) and a history of 1-6 steps (disruption reconcile with an optional third-party mutation while the controller waits to validate, clock advance, queue reconcile, replacement initialisation / loss, node termination, provisioning pass, mutation; 12% of the histories start with a node nominated twice, the second time inside the first window, and a disruption pass between the two expiries); the REAL disruption controller with its five default methods, the REAL queue, the REAL nodeclaim.disruption controller (Consolidatable) and lifecycle controller run; " +
 		"oracle: every candidate of every command returned by a method must have no blocker according to an independent predicate written from the statement and evaluated on the API objects and the harness's own record of marks, in-flight commands and nominations at the instant the method returned; " +
 		"non-trivial = at least one command was issued in a world that held, for the acting method, both an eligible and a blocked node",
 	Assumptions: []string{"the nomination window is max(2 x batchMaxDuration, 10s) as documented in the settings", "a Node object with a deletionTimestamp whose NodeClaim is not deleting is not generated (the termination controller deletes the NodeClaim immediately)", "AlwaysAllow PDBs: pods carry an explicit Ready condition"},
